@@ -1,4 +1,4 @@
-import StraxModel.Lemmas.MailboxLive
+import StraxModel.Lemmas.MailboxOoo
 /-
   C05 — a mailbox delivers every message exactly once, in order, to every subscriber.
 
@@ -56,20 +56,20 @@ theorem sent_is_program_prefix (c : Config) (hv : c.valid = true) (s : Sys) (h :
         | exact Or.inr this
         | (left; rw [this.2.1]; simp)
 
-/-- **no deadlock** (proved for in-order sends): inside the domain (`Config.valid`) and under the liveness
-side conditions `Config.live` — at least one subscriber, `max_messages ≥ 1`, at least one driving subscriber
-in lazy mode, every future completed by some worker, messages sent in number order — every reachable state
-in which some thread has not ended has an enabled thread.  Together with `no_lost_wakeup` this is the
-"no lost wake-up, no capacity deadlock" half of the property for every schedule.
-
-Full statement (not proved): the same with `Config.live` allowing explicitly numbered out-of-order sends
-whose displacement (max over send positions of the number of already-sent messages above the smallest unsent
-number) is below the capacity.  Missing: the counting argument `heap.length ≤ displacement` replacing
-`heap_empty_of_all_blocked`; the model, the correspondence check and the oracle do cover such programs.
-Also not proved: a termination measure (every schedule is finite); with it `stuck_is_success` below would
+/-- **no deadlock**: inside the domain (`Config.valid`), every reachable state in which some thread has not
+ended has an enabled thread, under either of the decidable liveness side conditions
+* `Config.live`: ≥ 1 subscriber, `max_messages ≥ 1`, ≥ 1 driving subscriber in lazy mode, every future completed by
+  some worker, messages sent in number order (eager or lazy, either gate rule), or
+* `Config.liveOoo`: ≥ 1 subscriber, futures completed, ANY numbering whose displacement `displ` (max over send
+  positions of the number of already sent messages above the smallest unsent number) is below the capacity (or no
+  capacity limit), in eager mode — or in lazy mode with a driver under the repaired gate rule.
+Together with `no_lost_wakeup` this is "no lost wake-up, no capacity deadlock" for every schedule.
+The one combination left out deadlocks for real: a lazy mailbox with the gate rule as found, fed out of order
+(`lazy_out_of_order_old_rule_deadlock` below); it cannot arise through `_send_from` / `divide_outputs`, which number
+in order.  Not proved: a termination measure (that every schedule is finite); with it `stuck_is_success` would
 read "every run ends, and ends with exact delivery". -/
-theorem deadlock_free_partial (c : Config) (hv : c.valid = true) (hl : c.live = true) (s : Sys) (h : Reachable c s)
-    (hnf : s.final = false) : ∃ t, (step s t).isSome = true := by
+theorem deadlock_free (c : Config) (hv : c.valid = true) (hl : c.live = true ∨ c.liveOoo = true) (s : Sys)
+    (h : Reachable c s) (hnf : s.final = false) : ∃ t, (step s t).isSome = true := by
   apply Classical.byContradiction
   intro hcon
   have hstuck : ∀ t, step s t = none := by
@@ -77,17 +77,37 @@ theorem deadlock_free_partial (c : Config) (hv : c.valid = true) (hl : c.live = 
     cases hst : step s t with
     | none => rfl
     | some s' => exact absurd ⟨t, by simp [hst]⟩ hcon
-  rw [deadlock_free_core hv hl h hstuck] at hnf
+  have hf : s.final = true := by
+    rcases hl with hl | hl
+    · exact deadlock_free_core hv hl h hstuck
+    · exact deadlock_free_ooo_core hv hl h hstuck
+  rw [hf] at hnf
   cases hnf
 
 /-- every run that cannot be extended is a complete, successful one: all threads have ended and every
 subscriber has been handed exactly the program's messages in number order -/
-theorem stuck_is_success (c : Config) (hv : c.valid = true) (hl : c.live = true) (s : Sys) (h : Reachable c s)
-    (hstuck : ∀ t, step s t = none) :
+theorem stuck_is_success (c : Config) (hv : c.valid = true) (hl : c.live = true ∨ c.liveOoo = true) (s : Sys)
+    (h : Reachable c s) (hstuck : ∀ t, step s t = none) :
     s.final = true ∧ ∀ (i : Nat) (r : Reader), s.readers[i]? = some r →
       r.got = inOrder (numbered c.prog 0) c.prog.length ∧ ∃ rest, r.pc = .done rest := by
-  have hf := deadlock_free_core hv hl h hstuck
+  have hf : s.final = true := by
+    rcases hl with hl | hl
+    · exact deadlock_free_core hv hl h hstuck
+    · exact deadlock_free_ooo_core hv hl h hstuck
   exact ⟨hf, fun i r hr => delivery_exact_core hv h hf i r hr⟩
+
+/-- the excluded combination is a real deadlock of the code as found: lazy mailbox, gate rule `lowest`,
+messages 1 then 0 — after `1` is buffered, `waiting_for = 0 <= lowest = 1` makes `_can_fetch` refuse for ever -/
+theorem lazy_out_of_order_old_rule_deadlock :
+    ∃ s, Reachable { cap := none, lazy := true, gateRule := .lowest, drive := [true],
+        prog := [.item (some 1) (.plain 10), .item (some 0) (.plain 20)], workers := [], killers := [] } s ∧
+      s.final = false ∧ s.enabled = [] := by
+  have hrun : ∃ s, run? (init { cap := none, lazy := true, gateRule := .lowest, drive := [true],
+        prog := [.item (some 1) (.plain 10), .item (some 0) (.plain 20)], workers := [], killers := [] })
+      [.sender, .reader 0, .sender, .sender, .sender, .sender, .reader 0] = some s ∧ s.final = false ∧ s.enabled = [] := by
+    decide
+  obtain ⟨s, h1, h2, h3⟩ := hrun
+  exact ⟨s, Reachable.of_run h1, h2, h3⟩
 
 /-- every number below `have_read[i] + 1` has really been sent (so `inOrder` skips nothing) -/
 theorem delivery_no_gap (c : Config) (s : Sys) (h : Reachable c s) (i : Nat) (sub : Sub)
@@ -160,8 +180,9 @@ def exCfg2 : Config :=
 
 example : exCfg.valid = true ∧ exCfg2.valid = true ∧ exCfg.live = true := by decide
 
-/-- `exCfg2` sends 1 before 0: valid, but outside `live` (in-order numbering) — the part of `deadlock_free` not proved -/
-example : exCfg2.live = false := by decide
+/-- `exCfg2` sends 1 before 0 with capacity 2: outside `live` (in-order numbering) but inside `liveOoo`
+(displacement 1 < 2); with capacity 1 it would be outside both — and does deadlock -/
+example : exCfg2.live = false ∧ exCfg2.liveOoo = true ∧ ({ exCfg2 with cap := some 1 } : Config).liveOoo = false := by decide
 
 /-- a lazy configuration with a non-driving subscriber next to a driver satisfies both hypotheses -/
 def exCfg3 : Config :=
